@@ -61,6 +61,7 @@ ToItem(v) ==
     [] v.t \in {"csig", "csigval"} -> SigItem(v.x)
     [] v.t = "csigs" -> Arr([i \in 1..Len(v.xs) |-> SigItem(v.xs[i])])
     [] v.t = "simple" -> Simple(v.v)
+    [] v.t = "rawitem" -> ParseAll(v.b).item           \* a Go value whose type brings its own CBOR encoding (cbor.RawMessage): b is that encoding
     [] OTHER -> Undef                                \* nilcsig, struct, float: no CBOR image in the data model
 
 \* ---------------------------------------------------------------------------
@@ -86,6 +87,16 @@ IsCsLabel(k) == IsGoInt(k) /\ ~k.neg /\ k.a \in {<<7>>, <<11>>}
 BucketInModel(ps) == \A i \in 1..Len(ps) : /\ LabelInModel(ps[i][1]) /\ InModel(ps[i][2])
                                            /\ ~(IsCsLabel(ps[i][1]) /\ ps[i][2].t = "arr")
 LayerInModel(s) == BucketInModel(s.P) /\ BucketInModel(s.U)
+\* values with an encoding of their own (rawitem) are outside the model as far as symmetry goes, but whatever the encoder
+\* makes of them can be held to the rules: DeRaw replaces them by an in-model placeholder for that purpose
+RECURSIVE DeRaw(_)
+RECURSIVE DeRawLayer(_)
+DeRaw(v) == CASE v.t = "rawitem" -> [t |-> "nil"]
+              [] v.t = "csig" -> [v EXCEPT !.x = DeRawLayer(v.x)]
+              [] v.t = "csigs" -> [v EXCEPT !.xs = [i \in 1..Len(v.xs) |-> DeRawLayer(v.xs[i])]]
+              [] OTHER -> v
+DeRawBucket(ps) == [i \in 1..Len(ps) |-> <<ps[i][1], DeRaw(ps[i][2])>>]
+DeRawLayer(s) == [s EXCEPT !.P = DeRawBucket(s.P), !.U = DeRawBucket(s.U)]
 
 \* ---------------------------------------------------------------------------
 \* wire image of a structure built from layers (signature bytes given)
